@@ -371,6 +371,14 @@ class EdSim(core.Engine):
         elif sp == 'from_parent':
             cwd = os.path.dirname(root)
             path = 'root/' + entry['file']
+        elif sp == 'from_subdir':
+            # the working directory is a sub-directory of the ledger: every relative spelling climbs with '..'
+            first_dir = next((d for d in sorted(dirs_before) if d != root and os.path.dirname(d) == root), None)
+            if first_dir is None:
+                path = './' + entry['file']
+            else:
+                cwd = first_dir
+                path = os.path.relpath(entry_abs, first_dir)
         else:
             raise core.HarnessError(sp)
         os.chdir(cwd)
@@ -616,7 +624,7 @@ class EdSim(core.Engine):
         world = self._gen_world(rng)
         api = rng.choice(['recursive', 'recursive', 'recursive', 'single'])
         entry = {'api': api, 'file': 'main.bean' if api == 'recursive' or rng.random() < 0.5 else rng.choice(sorted(k for k in world if k.endswith('.bean'))),
-                 'spelling': rng.choice(['abs', 'bare', 'dot', 'updown', 'from_parent']), 'as_path': rng.random() < 0.5}
+                 'spelling': rng.choice(['abs', 'bare', 'dot', 'updown', 'from_parent', 'from_subdir']), 'as_path': rng.random() < 0.5}
         if rng.random() < (0.5 if prop == 'C08' else 0.06):
             # an include that matches nothing, on a seeded line of some file
             victim = rng.choice(sorted(k for k in world if k.endswith('.bean'))) if prop != 'C08' else 'main.bean'
